@@ -57,6 +57,10 @@ def specs():
     S["log"] = dict(params=[("k1", None)], vars=[("x", None)], reactions=[("v1", R.log_law, ["x", "k1"], {"x": -1})])
     S["sqrt"] = dict(params=[("k1", None)], vars=[("x", None)], reactions=[("v1", R.sqrt_law, ["x", "k1"], {"x": -1})])
     S["pow"] = dict(params=[("k1", None)], vars=[("x", None)], reactions=[("v1", R.pow_law, ["x", "k1"], {"x": -1}), ("v2", R.cube_k, ["x", "k1"], {"x": 1})])
+    S["sign"] = dict(params=[("k1", None)], vars=[("x", None), ("y", None)], reactions=[("v1", R.sign_law, ["x", "y", "k1"], {"x": -1, "y": 1})])
+    S["np_exp"] = dict(params=[("k1", None)], vars=[("x", None)], reactions=[("v1", R.npexp_law, ["x", "k1"], {"x": -1})])
+    S["np_sqrt"] = dict(params=[("k1", None)], vars=[("x", None)], reactions=[("v1", R.npsqrt_law, ["x", "k1"], {"x": -1})])
+    S["floor"] = dict(params=[("k1", None)], vars=[("x", None)], reactions=[("v1", R.floor_law, ["x", "k1"], {"x": -1})])
     S["abs"] = dict(params=[("k1", None)], vars=[("x", None)], reactions=[("v1", R.abs_law, ["x", "k1"], {"x": -1})])
     S["minmax"] = dict(params=[("k1", None)], vars=[("x", None), ("y", None)], reactions=[("v1", R.minmax_law, ["x", "y", "k1"], {"x": -1, "y": 1})])
     S["helper_call"] = dict(params=[("k1", None)], vars=[("x", None)], reactions=[("v1", R.calls_helper, ["x", "k1"], {"x": -1})])
@@ -137,14 +141,17 @@ class RoundTrip(Scenario):
                     pass
             f = d / f"{stem}.xml"
             # ratefns must show the real math module to the exporter / translator
-            saved = R.__dict__.get("math")
+            import numpy as _np_real
+
+            saved = (R.__dict__.get("math"), R.__dict__.get("np"))
             R.__dict__["math"] = math
+            R.__dict__["np"] = _np_real
             try:
                 sbml.write(m, f)
             except Exception as e:  # noqa: BLE001
                 return m, ("write", e), names_p
             finally:
-                R.__dict__["math"] = saved
+                R.__dict__["math"], R.__dict__["np"] = saved
             try:
                 new = sbml.read(f)
             except Exception as e:  # noqa: BLE001
